@@ -185,6 +185,27 @@ def sc_sweep(sess, rng, tb, **over):
     if not c.dead: c07.probe_mount_paths(g, c, [])       # lookups / readdirplus / getattr across the mount points
     return c
 
+def sc_degenerate(sess, rng, tb, maps, G=(0, 1000, 65536)):
+    """a non-empty global mapping G and mounts whose own mapping is degenerate (empty range, identity, range 1, huge range,
+    overflowing): the mount's own mapping wins even when it translates nothing, so ids inside the GLOBAL range pass
+    untranslated on those mounts"""
+    c = new_case(sess, rng, tb, gmap=G, rm=0); g = HistoryGen(c, rng, use_maps=True)
+    g.maps_in_play += list(maps)
+    for k, D in enumerate(maps):
+        if c.dead: break
+        st, o = g.mount(path=mk_path(rng, [('N', 60 + k)], noise=False), map=D, ans=dict(okmount(rng), uid=G[0] + 5, gid=G[0] + G[2] - 1))
+        if o['status'] != 'ok': continue
+        x = (o['vals'][0] << 56) | 1
+        async_ids_block(g, tb, [x], G)                  # caller / owner ids at the edges of the GLOBAL mapping, sync twin below
+        for op in ('lookup', 'getattr', 'mkdir', 'readdirplus'):
+            if c.dead: break
+            e = {'ino': 31, 'stino': 31, 'uid': G[0] + 7, 'gid': G[0] + G[2] - 1, 'tag': 2}
+            g.request(op, x, mode='s', name=('norm', 3), uid=G[1] + 7, gid=G[1] + G[2] - 1, size=4096, offset=0, limit=10,
+                      ans=mk_ans(ent=e, attr={'ino': 9, 'uid': G[0], 'gid': G[0] + 9, 'tag': 2}, dir=[(31, 7, e)]))
+        setattr_block(g, x, G)
+    if not c.dead: c07.probe_mount_paths(g, c, [])      # mount roots through lookup / readdirplus / getattr
+    return c
+
 def sc_rootmount(sess, rng, tb):
     c = new_case(sess, rng, tb); g = HistoryGen(c, rng, use_maps=True)
     m1 = gen_mapping(rng) if rng.random() < 0.7 else None
@@ -256,6 +277,9 @@ def gen_cases(sess, rng, tb, tier):
     # whose external range overlaps its internal range (translating twice differs from translating once)
     cases.append(sc_sweep(sess, rng, tb, gmap=(0, 1000, 65536), m1=(1000, 2000, 65536)))
     for _ in range(9 if q else 100): cases.append(sc_sweep(sess, rng, tb))
+    if not os.environ.get('VFS_NO_DET'):
+        cases.append(sc_degenerate(sess, rng, tb, DEGENERATE_MAPS))
+        for D in OVERFLOW_MAPS: cases.append(sc_degenerate(sess, rng, tb, [D]))
     for _ in range(8 if q else 50): cases.append(sc_rootmount(sess, rng, tb))
     for _ in range(1 if q else 6): cases.append(sc_overmount_reuse(sess, rng, tb))
     for _ in range(1 if q else 4): cases.append(sc_failed_mount_reuse(sess, rng, tb))
